@@ -244,7 +244,8 @@ func (w *Workspace) Write(r *Result) ([]string, error) {
 
 // LoadGenerated type-checks all packages under the corpus module.
 func (w *Workspace) LoadGenerated(goarch string) ([]*packages.Package, error) {
-	env := core.GoEnv("GOFLAGS=-mod=mod")
+	// -trimpath keeps the compile actions independent of the scratch directory, so repeated runs hit the build cache
+	env := core.GoEnv("GOFLAGS=-mod=mod -trimpath")
 	if goarch != "" {
 		env = append(env, "GOARCH="+goarch)
 	}
